@@ -1,5 +1,6 @@
 import PlumpyModel.Futures.Proof
 import PlumpyModel.Futures.ProofMirror
+import PlumpyModel.Futures.ProofAction
 /-!
 # C20 — future adapters deliver result, error or cancellation exactly once
 -/
@@ -112,5 +113,59 @@ theorem C20_mirror_faithful (n : Nat) (o : Outcome) (pre post : List Ev) (fuel :
     rw [chainD_last] at h2
     refine ⟨hb.errs, hb.fuel, ⟨m, hm, by rw [← hk']; exact hbelow, .inr ⟨rfl, h2, h5, h6⟩⟩,
       .inr hd, fun hp => by rw [h2] at hp; exact absurd hp (Outcome.toSt_ne_pending o), fun _ _ => hd, hdone⟩
+
+/-- **C20, a cancellable action runs its function at most once**: after any history of `run()` and `cancel()` calls
+(from any state `s0` of the rest of the world) the function has been called at most once. -/
+theorem C20_action_runs_at_most_once (s0 : State) (fn : Call) (evs : List AEv) :
+    let a := (newAction s0 fn).2
+    let s := actRun a (newAction s0 fn).1 evs
+    ∃ act, s.acts a = some act ∧ act.calls ≤ 1 :=
+  (actRun_inv evs _ (newAction_inv s0 fn)).calls_le
+
+/-- **C20, a cancellable action refuses to run again or after cancellation**: after any history, (1) once the action
+is cancelled `run()` raises `InvalidStateError`, does not call the function and changes nothing; (2) the same after a
+`run()` that returned normally; (3) the same whenever the action is done. -/
+theorem C20_action_refuses_rerun_and_after_cancel (s0 : State) (fn : Call) (evs : List AEv) :
+    let a := (newAction s0 fn).2
+    let s := actRun a (newAction s0 fn).1 evs
+    (runAction (actStep a s .cancel) a = (actStep a s .cancel, some .actionInvalid)) ∧
+    ((runAction s a).2 = none → runAction (actStep a s .run) a = (actStep a s .run, some .actionInvalid)) ∧
+    (s.st a ≠ .pending → runAction s a = (s, some .actionInvalid)) := by
+  intro a s
+  have h : AInv fn a s := actRun_inv evs _ (newAction_inv s0 fn)
+  obtain ⟨act, hact, _⟩ := h.calls_le
+  refine ⟨?_, fun hn => ?_, fun hd => runAction_refuses s a act hact hd⟩
+  · obtain ⟨act', hact', _⟩ := (actStep_inv h .cancel).calls_le
+    exact runAction_refuses _ a act' hact' (cancelFut_st_self s a)
+  · obtain ⟨act', hact', _⟩ := (actStep_inv h .run).calls_le
+    exact runAction_refuses _ a act' hact' (run_none_done h hn)
+
+/-- **C20, a cancellable action reports its outcome through itself**: the first `run()` calls the function once; a
+returned value (a plain value or a future) becomes the action's result and an `Exception` becomes the action's
+exception, `run()` itself returns normally and nothing is logged; only a `BaseException` propagates out of `run()`
+(the action stays pending, the function is dropped). -/
+theorem C20_action_reports_through_itself (s0 : State) (fn : Call) :
+    let a := (newAction s0 fn).2
+    let r := runAction (newAction s0 fn).1 a
+    r.1.acts a = some { fn := none, calls := 1 } ∧ r.1.errs = s0.errs ∧
+    match fn with
+    | .ret v => r.2 = none ∧ r.1.st a = .result v
+    | .raise e => (e.isException = true → r.2 = none ∧ r.1.st a = .exc e) ∧
+                  (e.isException = false → r.2 = some e ∧ r.1.st a = .pending) := by
+  intro a r
+  have h1 : (newAction s0 fn).1.st a = .pending := by simp [a, newAction, alloc, State.setAct, State.st]
+  have h2 : (newAction s0 fn).1.acts a = some { fn := some fn, calls := 0 } := by simp [a, newAction, alloc, State.setAct]
+  have he : (newAction s0 fn).1.errs = s0.errs := by simp [newAction, alloc, State.setAct]
+  have := run_fresh h1 h2
+  cases fn with
+  | ret v => simp only at this; exact ⟨this.2.2.1, by rw [← he]; exact this.2.2.2, this.1, this.2.1⟩
+  | raise e =>
+    simp only at this
+    by_cases hx : e.isException = true
+    · have t := this.1 hx
+      exact ⟨t.2.2.1, by rw [← he]; exact t.2.2.2, fun _ => ⟨t.1, t.2.1⟩, fun h => by rw [hx] at h; simp at h⟩
+    · have hx' : e.isException = false := by simpa using hx
+      have t := this.2 hx'
+      exact ⟨t.2.2.1, by rw [← he]; exact t.2.2.2, fun h => by rw [hx'] at h; simp at h, fun _ => ⟨t.1, t.2.1⟩⟩
 
 end Futures
